@@ -304,7 +304,7 @@ inline const std::vector<std::string>& allFeatures() {
         "lre", "message", "modes", "sort2", "comment-pi", "exslt-set", "exslt-math", "exslt-str", "genid", "lang", "sysprop", "param", "ifbool",
         "union", "preds", "valnum", "apply-imports", "text-nodes", "ns-axis", "doctype-node", "attr-nodes", "number-value", "bigfmt", "xalan-ext", "docfn", "avt-ns", "extfn", "paramuse", "gate", "num-gate", "sortlang", "num-value", "lazyvar", "manyrtf", "deeprec", "padsupp", "top-nodes", "doe", "sort-gate", "bignum-alpha",
         "num-punct", "num-exotic", "ext-evaluate", "rtf-key", "key-prefixed", "key-variant",
-        "nsalias", "withparam", "fmtnum-pat", "doc2", "unparsed-entity", "nsfix", "numconv", "keynodeset", "randexpr", "manydf", "axes-matrix", "num-groupsep", "sort-manylang", "attr-replace", "deep-rtf", "many-nodesets", "copy-ns-attr"
+        "nsalias", "withparam", "fmtnum-pat", "doc2", "unparsed-entity", "nsfix", "numconv", "keynodeset", "randexpr", "manydf", "axes-matrix", "num-groupsep", "sort-manylang", "attr-replace", "deep-rtf", "many-nodesets", "copy-ns-attr", "attr-expanded"
     };
     return f;
 }
@@ -443,6 +443,9 @@ struct SSGen {
         if (on("many-nodesets")) { std::string vars, uses; for (int i = 0; i < 60; ++i) { vars += "<xsl:variable name=\"mn" + std::to_string(i) + "\" select=\"*[position() &gt; " + std::to_string(i % 4) + "]\"/>"; if (i % 10 == 0) uses += vo("count($mn" + std::to_string(i) + ")") + ","; }
             perNode += "<xsl:if test=\"count(preceding::*) mod 6 = 0\">" + vars + o("many-nodesets", uses) + "</xsl:if>"; }
         // an attribute in a namespace copied to an element where nothing declares its prefix: the declaration has to come along
+        // an attribute replaces the one with the same expanded name, whatever the prefixes (XSLT 7.1.3)
+        if (on("attr-expanded")) { perNode += "<xsl:if test=\"not(ancestor::*)\"><o f=\"attr-expanded\" n=\"{@id}\"><c><xsl:attribute name=\"za:a\" namespace=\"urn:x-zq\">1</xsl:attribute><xsl:attribute name=\"zb:a\" namespace=\"urn:x-zq\">2</xsl:attribute><xsl:attribute name=\"zb:b\" namespace=\"urn:x-zq\">3</xsl:attribute><xsl:attribute name=\"a\">4</xsl:attribute></c><d xmlns:zc=\"urn:x-zq\" zc:a=\"1\"><xsl:attribute name=\"zd:a\" namespace=\"urn:x-zq\">2</xsl:attribute><xsl:attribute name=\"zd:a\" namespace=\"urn:x-zr\">5</xsl:attribute></d></o></xsl:if>";
+            out.expect.emplace_back("attr-expanded", "E{|c|^a=4;urn:x-zq^a=2;urn:x-zq^b=3;|}E{|d|urn:x-zq^a=2;urn:x-zr^a=5;|}"); }
         if (on("copy-ns-attr")) { perNode += "<xsl:if test=\"not(ancestor::*)\"><xsl:variable name=\"cna\"><e xmlns:zq=\"urn:x-zq\" zq:a=\"1\" b=\"2\"/></xsl:variable><o f=\"copy-ns-attr\" n=\"{@id}\"><c><xsl:copy-of xmlns:zq=\"urn:x-zq\" select=\"exsl:node-set($cna)/e/@zq:a\"/></c><d><xsl:for-each xmlns:zq=\"urn:x-zq\" select=\"exsl:node-set($cna)/e/@*\"><xsl:copy/></xsl:for-each></d></o></xsl:if>";
             out.expect.emplace_back("copy-ns-attr", "E{|c|urn:x-zq^a=1;|}E{|d|^b=2;urn:x-zq^a=1;|}"); }
         // many result tree fragments alive at the same time (arena blocks of the fragment allocators hold 10)
